@@ -89,6 +89,14 @@ def classify(step):
     hist_bad = step["hist"] is not None and not step["hist"].startswith("hist ok")
     hc = sorted(set(re.findall(r"([a-z-]+)@", step["hist"]))) if hist_bad else []
     grouping = k == "dist" and int(ck.get("flags", "0")) & GROUP_FLAG
+    # kinds of the Groups that vanished without a restrict; the known in-place replacement only hits a Group of
+    # strictly larger kind than the new one (user Group: kind= of the call; distances Groups: kind 900)
+    m_vk = re.search(r"vanished-group-kinds=(\S+)", step["hist"] or "")
+    vkinds = [int(x) for x in m_vk.group(1).split(",") if x.lstrip("-").isdigit()] if m_vk else []
+    newkind = 900 if k == "dist" else int(ck.get("kind", "0")) if k == "group" else None
+    replaced_larger_only = bool(vkinds) and newkind is not None and all(v > newkind for v in vkinds)
+    if k == "group" and ck.get("dm", "0") != "0" and vkinds:
+        replaced_larger_only = True      # a dont_merge Group always takes over a mergeable one (same in-place replacement)
     zeroed = k == "group" and " gp=0" in res and "inserted" in res
     if wf_bad or chk_bad:
         if grouping and "filtered-type-present" in clauses:
@@ -98,7 +106,7 @@ def classify(step):
         elif grouping and "sets-missing" in clauses:
             key = "group-by-distances-objects-without-cpuset"
         elif grouping and "object-vanished-without-restrict" in hc:
-            key = "group-by-distances-replaces-existing-group"
+            key = "group-by-distances-replaces-existing-group" if replaced_larger_only else "group-by-distances-replaces-group-of-not-larger-kind"
         elif grouping and ("total-memory" in clauses or "total_memory" in asrt):
             key = "group-by-distances-total-memory"
         elif grouping and (any("nodeset" in c for c in clauses) or "nodeset" in asrt):
@@ -108,6 +116,10 @@ def classify(step):
             key = "group-by-cpuset-offline-pus-children-order"
         elif zeroed:
             key = "dontmerge-group-replace-returns-zeroed-object"
+        elif k == "group" and ck.get("cs", "-") == "-" and ck.get("ccs", "-") != "-" and ("sets-missing" in clauses or asrt == "obj->cpuset"):
+            # Group given by complete_cpuset only, covering only PUs that are not in any cpuset (offline/disallowed):
+            # inserted without children that have a cpuset, so it never gets a cpuset
+            key = "group-complete-cpuset-only-inserted-without-cpuset"
         elif k == "group" and ck.get("dm", "0") != "0" and ("sets-missing" in clauses or "complete_cpuset" in asrt):
             key = "dontmerge-group-missing-complete-cpuset"
         elif k == "group" and (clauses == ["total-memory"] or (not clauses and "total_memory" in asrt)):
@@ -127,10 +139,12 @@ def classify(step):
     if step["levels"] is not None and step["levels"] != "levels ok":
         out.append(("correspondence:levels:%s" % k, "model of hwloc_connect_levels disagrees with the implementation after `%s`" % call, not wf_bad, False))
     if hist_bad and not (wf_bad or chk_bad):
-        if k == "group" and "object-vanished-without-restrict" in hc:
-            key = "group-merge-replaces-object-identity"
+        if "identity-attrs-changed" in hc:
+            key = "identity-attrs-changed:%s" % k
+        elif k == "group" and "object-vanished-without-restrict" in hc:
+            key = "group-merge-replaces-object-identity" if replaced_larger_only else "group-merge-replaces-group-of-not-larger-kind"
         elif grouping and "object-vanished-without-restrict" in hc:
-            key = "group-by-distances-replaces-existing-group"
+            key = "group-by-distances-replaces-existing-group" if replaced_larger_only else "group-by-distances-replaces-group-of-not-larger-kind"
         elif "dontmerge-group-merged-away" in hc:
             key = "keep-structure-merges-dontmerge-group"
         else:
